@@ -156,6 +156,10 @@ func PutTree(c *wire.Case, m []pbfgen.Field) error {
 			if err := PutTree(c, f.Msg); err != nil {
 				return err
 			}
+		case pbfgen.KFix64:
+			c.Int(4).Int(int64(f.Var))
+		case pbfgen.KFix32:
+			c.Int(5).Int(int64(f.Var))
 		default:
 			return fmt.Errorf("field kind %q is outside the tree model", f.Kind)
 		}
